@@ -79,7 +79,7 @@ static double apply_op(int op, double x, double y) {
 static RArr source(const L& s, int op) {
     RArr r(s); long n = r.size();
     if (op == LAND || op == LOR) { for (long i = 0; i < n; i++) r.data[(size_t)i] = (double)((i * 5 + 1) % 3 != 0); return r; }
-    for (long i = 0; i < n; i++) r.data[(size_t)i] = (op == MUL) ? (double)(1 + (i % 3 == 0 ? 1 : 0) + (i % 7 == 0 ? 1 : 0)) : (double)(((i * 7 + 3) % (2 * n + 1)) + 1);
+    for (long i = 0; i < n; i++) r.data[(size_t)i] = (op == MUL) ? (double)(1 + (i % 8 == 0 ? 1 : 0) + (i % 64 == 5 ? 2 : 0) + (i == 1 ? 1 : 0)) : (double)(((i * 7 + 3) % (2 * n + 1)) + 1);
     return r;
 }
 
